@@ -11,7 +11,7 @@ import gen
 LEVEL = "proof"
 FULL = [MT_OCI_M, MT_OCI_I, MT_DOCK_M, MT_DOCK_I]
 PROFILE = dict(blob=1, chunked=0.3, mount=0.2, image=5, index=2, artifact=1, mread=4, bread=0.5, tags=6, refs=0.5,
-               mdel=3, bdel=0, sess=0.2, bad=0.7)
+               mdel=3, bdel=0, sess=0.2, bad=0.7, retag=1.5)
 
 
 def go_lt(a, b):
